@@ -41,7 +41,9 @@ Inductive iobs :=
 | ITx (c : tclass) (evs : list iev)
 | IEnd (c : tclass) (evs : list iev) (s : option snap).
 
-Record case := mkCase { cs_init : cstate; cs_events : list event; cs_obs : list iobs }.
+(* cs_hashdiff: events (end-blocks) after which two independent executions of the same history on the
+   implementation committed different app hashes *)
+Record case := mkCase { cs_init : cstate; cs_events : list event; cs_obs : list iobs; cs_hashdiff : list Z }.
 
 Definition zz_eqb (a b : Z * Z) : bool := (fst a =? fst b) && (snd a =? snd b).
 Definition zb_eqb (a b : Z * bytes) : bool := (fst a =? fst b) && bytes_eqb (snd a) (snd b).
